@@ -14,8 +14,8 @@
      linearizable s cs      some permutation of cs is a legal sequential execution from s and never puts a call
                             before one that had responded before it was invoked
      linb                   the executable checker the recorded histories of the real runs are judged by *)
-From Coq Require Import List NArith Arith Bool String Sorting.Permutation.
-From PF Require Import Graph.Lock Graph.LockProofs Graph.LockSemProofs.
+From Coq Require Import List NArith ZArith Arith Bool String Sorting.Permutation.
+From PF Require Import Graph.Lock Graph.LockProofs Graph.LockSemProofs Graph.LockNodes Graph.LockAlias.
 From PFGen Require LockFacts.
 Import ListNotations.
 
@@ -25,6 +25,53 @@ Import ListNotations.
 Theorem lock_facts_hold : lock_facts_ok LockFacts.facts = true.
 Proof. vm_compute. reflexivity. Qed.
 Print Assumptions lock_facts_hold.
+
+(* ==================================================================================================== *)
+(* THE PROPERTY, packaged.  "Parameter updates, parameter reads and artifact generation issued concurrently behave
+   as if executed one at a time in an order consistent with real time: every artifact reflects one consistent
+   snapshot of all parameter values -- never a mixture of two states and never a value older than an update that
+   had completed before the read began -- and no interleaving produces a data race or a crash."
+
+   For the lock facts extracted from the tree under check (coq/gen/LockFacts.v, regenerated on every run), every
+   number of client threads, all their programs and every interleaving of the small-step semantics:
+     (1) at every moment at most one thread is inside a critical section;
+     (2) when all calls have returned, the completed calls have ONE sequential order that is a legal execution of
+         the sequential specification and never orders a call before one that had responded before it was invoked;
+     (3) every call x -- every artifact, every parameter read -- returns the specification's answer in ONE state:
+         the state after a legal sequential execution [before] of other calls of the run (for an artifact: the
+         values of all parameters it shows, read from that single state; "panicked" exactly when that state has a
+         value its producer panics on), and every call ordered [after] x was still running or not yet invoked when
+         x was invoked: no update that had completed before the read began is missing from [before].
+   _partial: the last clause of the sentence is about the Go runtime (data races, crashes) and is NOT a theorem --
+   (1) is its model-level counterpart; the runtime itself is sampled on every run (race detector, recover, child
+   processes for cold starts).  Non-quiescent traces: [coarse_lock_linearizable] below (in-flight calls completed). *)
+Theorem c13_property_partial :
+  (forall s programs c tr,
+     reach (guard_of LockFacts.facts) (init_config s programs) c tr ->
+     forall t u, in_cs c t -> in_cs c u -> t = u)
+  /\
+  (forall s programs c tr,
+     reach (guard_of LockFacts.facts) (init_config s programs) c tr -> quiescent c ->
+     (exists order, Permutation order (calls_of tr) /\ legal s order /\ rt_ok order)
+     /\
+     (forall x, In x (calls_of tr) ->
+        exists before after,
+          Permutation (before ++ x :: after) (calls_of tr) /\ legal s before /\
+          c_resp x = snd (seq_step (run_calls s before) (c_op x)) /\
+          Forall (fun u => c_inv x < c_res u) after)).
+Proof.
+  pose proof lock_facts_hold as HF.
+  split.
+  - intros s programs c tr H. exact (mutex _ s programs c tr H).
+  - intros s programs c tr H Q.
+    assert (HL : linearizable s (calls_of tr)).
+    { exact (guarded_linearizable_quiescent (guard_of LockFacts.facts) s programs c tr
+               (lock_facts_guard _ HF) H Q). }
+    split; [exact HL|]. intros x Hx. apply call_snapshot; assumption.
+Qed.
+Print Assumptions c13_property_partial.
+(* ==================================================================================================== *)
+
 
 (* Mutual exclusion is an invariant of the semantics, whatever the guards are: a thread is inside a critical
    section (has acquired, not yet released) exactly when it holds the lock, so at most one thread is. *)
@@ -57,8 +104,9 @@ Theorem coarse_lock_linearizable_checked_tree : forall s programs c tr,
   reach (guard_of LockFacts.facts) (init_config s programs) c tr -> quiescent c ->
   linearizable s (calls_of tr).
 Proof.
-  intros s programs c tr H Q. eapply guarded_linearizable_quiescent; eauto.
-  apply lock_facts_guard. exact lock_facts_hold.
+  intros s programs c tr H Q.
+  exact (guarded_linearizable_quiescent (guard_of LockFacts.facts) s programs c tr
+           (lock_facts_guard _ lock_facts_hold) H Q).
 Qed.
 Print Assumptions coarse_lock_linearizable_checked_tree.
 
@@ -118,6 +166,84 @@ Proof.
 Qed.
 Print Assumptions panicking_artifact_one_snapshot.
 
+(* THE REAL EVALUATOR INSIDE THE CRITICAL SECTION (C11's model, imported read-only: Graph/Nodes.v).  What
+   [Artifact] runs under the lock is [producer.Value()]: C11's cache-bearing evaluator on a node table with cached
+   values, versions, recorded dependency versions -- a critical section with hidden state.  For every quiescent
+   run there is a linearization [order] such that executing the critical sections in that order on ANY node
+   table [s0] reachable in C11's model (any wiring built by any history [h], any enumeration oracle that returns
+   permutations) whose parameter nodes [pid p] hold the initial abstract state: every artifact value [v]
+   obtained for call x on producer node [tag x] is the FROM-SCRATCH evaluation [eval_scratch] of the node graph
+   [g] at ONE parameter state -- g's parameter nodes hold exactly [run_calls s before], all other nodes are those
+   of the initial graph -- the same state the abstract response is computed from, and nothing that had responded
+   before x was invoked is ordered after it. *)
+Theorem artifact_from_scratch_at_one_state : forall fs s programs c tr,
+  lock_facts_ok fs = true ->
+  reach (guard_of fs) (init_config s programs) c tr -> quiescent c ->
+  exists order,
+    Permutation order (calls_of tr) /\ legal s order /\ rt_ok order /\
+    forall orc pid tag np ds h s0 s' arts,
+      NodesProofs.oracle_ok orc ->
+      (forall p q, p < np -> q < np -> pid p = pid q -> p = q) ->
+      Nodes.run orc (Nodes.init ds) h = Some s0 ->
+      params_hold pid np (Nodes.graph_of (Nodes.nodes s0)) s ->
+      updates_in_range np order ->
+      replay_cs orc pid tag s0 order = Some (s', arts) ->
+      forall x v, In (x, v) arts ->
+        exists before after,
+          order = before ++ x :: after /\
+          let g := graph_after pid (Nodes.graph_of (Nodes.nodes s0)) before in
+          Nodes.eval_scratch (S (List.length g)) g (tag x) = Some v /\
+          params_hold pid np g (run_calls s before) /\
+          (forall k, (forall p, p < np -> pid p <> k) ->
+                     nth_error g k = nth_error (Nodes.graph_of (Nodes.nodes s0)) k) /\
+          c_resp x = snd (seq_step (run_calls s before) (c_op x)) /\
+          Forall (fun u => c_inv x < c_res u) after.
+Proof.
+  intros fs s programs c tr HF. apply artifact_real_evaluator. apply lock_facts_guard. exact HF.
+Qed.
+Print Assumptions artifact_from_scratch_at_one_state.
+
+(* non-vacuity of the hypotheses above: a C11 graph with two parameters and one node summing them (wired by a
+   history), an update and an artifact call replayed with the cache-bearing evaluator *)
+Example real_evaluator_example :
+  let ds := [Nodes.DParam 0%Z; Nodes.DParam 7%Z;
+             Nodes.DStruct [("A"%string, false); ("B"%string, false)]
+                           (fun xs => fold_left Z.add (List.concat xs) 0%Z)] in
+  let h := [Nodes.Connect 2 "A" 0; Nodes.Connect 2 "B" 1] in
+  let x0 := mkcall 0 (Artifact [0; 1]) (RArt [0; 7]%N) 0 1 in
+  let x1 := mkcall 1 (Update 0 5%N) (RUpd true) 2 3 in
+  let x2 := mkcall 0 (Artifact [0; 1]) (RArt [5; 7]%N) 4 5 in
+  exists s0 s',
+    Nodes.run Nodes.sorted_oracle (Nodes.init ds) h = Some s0 /\
+    params_hold (fun p => p) 2 (Nodes.graph_of (Nodes.nodes s0)) (state_of [0; 7]%N 0%N) /\
+    legal (state_of [0; 7]%N 0%N) [x0; x1; x2] /\
+    replay_cs Nodes.sorted_oracle (fun p => p) (fun _ => 2) s0 [x0; x1; x2] = Some (s', [(x0, 7%Z); (x2, 12%Z)]).
+Proof.
+  eexists. eexists. split; [vm_compute; reflexivity|]. split.
+  - intros [|[|p]] Hp; try reflexivity. exfalso. apply (Nat.lt_irrefl 2). eapply Nat.le_lt_trans; [|exact Hp].
+    repeat apply le_n_S. apply Nat.le_0_l.
+  - split; [vm_compute; tauto | vm_compute; reflexivity].
+Qed.
+
+(* The node caches are an invariant-preserving HIDDEN state: responses never depend on them.  Two node tables
+   reachable in C11's model -- through different histories, with different caches, versions and execution counts,
+   even under different enumeration oracles -- that have the same erased graph (wiring, processors, parameter
+   values) answer a read of any node with the same value; in particular an earlier read changes no later answer.
+   (From C11's freshness theorem read_fresh_any_order.) *)
+Theorem node_caches_are_hidden_state :
+  (forall orc1 orc2 ds1 ds2 h1 h2 s1 s2 n s1' s2' v1 v2,
+     NodesProofs.oracle_ok orc1 -> NodesProofs.oracle_ok orc2 ->
+     Nodes.run orc1 (Nodes.init ds1) h1 = Some s1 -> Nodes.run orc2 (Nodes.init ds2) h2 = Some s2 ->
+     Nodes.graph_of (Nodes.nodes s1) = Nodes.graph_of (Nodes.nodes s2) ->
+     Nodes.read orc1 s1 n = Some (s1', v1) -> Nodes.read orc2 s2 n = Some (s2', v2) -> v1 = v2)
+  /\
+  (forall orc ds h s m sm vm n s1 v1 s2 v2,
+     NodesProofs.oracle_ok orc -> Nodes.run orc (Nodes.init ds) h = Some s ->
+     Nodes.read orc s m = Some (sm, vm) ->
+     Nodes.read orc sm n = Some (s1, v1) -> Nodes.read orc s n = Some (s2, v2) -> v1 = v2).
+Proof. split; [exact same_graph_same_artifact | exact earlier_reads_do_not_matter]. Qed.
+Print Assumptions node_caches_are_hidden_state.
+
 (* Responses are VALUES: a response, once given, stays in the history unchanged however the run continues (later
    updates included), and it equals the specification's response at its linearization point -- in one state of
    a sequential execution of the whole extended run.  (In the model this is immediate because a response is a Coq
@@ -138,6 +264,33 @@ Proof.
   apply lock_facts_guard. exact HF.
 Qed.
 Print Assumptions responses_are_values.
+
+(* ... also when the response ALIASES parameter storage (the []byte of a parameter.File returned by
+   ParameterData or kept by a basics.Binary artifact).  Model (Graph/LockAlias.v): a heap of buffers, a response is
+   a slice header (address, length), a client that retained it sees [deref] of the LATER heap.  With HEAD's
+   ApplyMessage (the parameter adopts the uploaded slice, a fresh buffer nobody writes again) a response obtained
+   after any operations [l1] shows, after ANY further operations [l2], exactly the specification's value at the
+   time of the read (the last payload uploaded before it). *)
+Theorem slice_responses_are_values : forall s0 v0 l1 l2,
+  wf s0 v0 ->
+  let s1 := arun step_adopt s0 l1 in
+  forall r, snd (step_adopt s1 ARead) = Some r ->
+    deref (a_heap s1) r = spec_value v0 l1 /\
+    deref (a_heap (arun step_adopt s1 l2)) r = spec_value v0 l1.
+Proof. exact adopt_responses_are_values. Qed.
+Print Assumptions slice_responses_are_values.
+
+(* The in-place variant (`append(buf[:0], msg...)`, seeded change C13-B) refutes it: a retained response shows the
+   NEW value after an upload of the same size, and a MIXTURE [2;2;1;1] after a shorter one. *)
+Theorem slice_responses_in_place_refuted :
+  let s0 := mkast [[1; 1; 1; 1]%N] 0 4 in
+  (exists r, snd (step_inplace s0 ARead) = Some r /\
+     deref (a_heap s0) r = [1; 1; 1; 1]%N /\
+     deref (a_heap (arun step_inplace s0 [AUpload [2; 2; 2; 2]%N])) r = [2; 2; 2; 2]%N) /\
+  (exists r, snd (step_inplace s0 ARead) = Some r /\
+     deref (a_heap (arun step_inplace s0 [AUpload [2; 2]%N])) r = [2; 2; 1; 1]%N).
+Proof. exact inplace_responses_refuted. Qed.
+Print Assumptions slice_responses_in_place_refuted.
 
 (* What the lock buys (not about the checked tree): if the lock fact of Artifact were false while UpdateParameter
    is guarded, two threads suffice for an artifact that is the evaluation of none of the states that ever
